@@ -44,12 +44,12 @@ def send_clauses(single):
         # C07.release: a failed write tells the protocol that the connection is gone
         ("C07.send.write-failure-closes", "implies(isinstance(event, RawData) and any(o.startswith('error:') for o in net_ops()), " + HANDLE_CLOSED + ")", "C07,C16,C03"),
         # C07.arm: the protocol's idle reports arm / disarm the keep-alive timer
-        ("C07.arm.idle", "implies(isinstance(event, Updated) and event.idle, call_index('" + single + ".restart') >= 0 and call_index('" + single + ".stop') < 0)", "C07,C16"),
+        ("C07.arm.idle", "implies(isinstance(event, Updated) and event.idle, call_index('" + single + ".restart') >= 0 and call_index('" + single + ".stop') < 0)", "C07,C16,C15"),
         ("C07.arm.busy", "implies(isinstance(event, Updated) and not event.idle, call_index('" + single + ".stop') >= 0 and call_index('" + single + ".restart') < 0)", "C07,C16"),
         ("C07.arm.timer-action", "implies(isinstance(event, Updated) and event.idle, is_method_of(call_args('" + single + ".restart')[2], self, '_idle_timeout'))", "C07,C16"),
         ("C16.single-feeder", "not trace_any('calls', 'c', c[0] == 'ProtocolPort.handle' and isinstance(c[2], RawData))", "C16"),
         # C16.send.closed: the server's decision to close closes the transport
-        ("C16.send.closed", "implies(isinstance(event, Closed), call_index('TCPServer._close') >= 0)", "C16,C07"),
+        ("C16.send.closed", "implies(isinstance(event, Closed), call_index('TCPServer._close') >= 0)", "C16,C07,C06"),
     ]
 
 # ------------------------------------------------------------------------------------ asyncio
@@ -62,12 +62,18 @@ cls(A, fields=dict(COMMON_FIELDS, loop="opaque", reader="obj asyncio:StreamReade
 
 fn(A + ".protocol_send", params={"event": _ev.IO_EVENTS}, model_opts=VIEWS,
    requires=[("send.pre.running", "has(self, 'protocol') and has(self, '_task_group') and value_of(self, 'protocol').g_initiated")],
-   ensures=send_clauses("AsyncioSingleTask"), props=("C16", "C07"))
+   ensures=send_clauses("AsyncioSingleTask") + [
+       # C08 (transport paused): a send returns only after the transport has taken the data or
+       # said that it is not paused -- every write is followed by its drain, under the send lock
+       # (trio's send_all waits by itself)
+       ("C08.send.waits-for-transport", "implies(isinstance(event, RawData) and 'write' in net_ops() and not any(o.startswith('error:') for o in net_ops()), "
+        "len(net_ops()) >= 2 and net_ops()[0] == 'write' and net_ops()[1] == 'drain')", "C08,C16"),
+   ], props=("C16", "C07"))
 
 fn(A + "._close", params={}, model_opts=VIEWS,
    ensures=[
        # C07.release: the transport is closed and the keep-alive timer is gone, on every path
-       ("C07.close.transport", "'close' in net_ops()", "C07,C16"),
+       ("C07.close.transport", "'close' in net_ops()", "C07,C16,C06"),
        ("C07.close.timer-stopped", "call_index('AsyncioSingleTask.stop') >= 0", "C07,C16"),
    ],
    props=("C07", "C16"))
@@ -79,7 +85,11 @@ fn(A + "._read_data", params={}, model_opts=VIEWS,
               "invariant": [("C16.read.inv", "has(self, 'protocol') and value_of(self, 'protocol').g_initiated and not value_of(self, 'protocol').g_eof_fed", "C16")],
               # C16.read.forward: what was read is handed to the protocol, unchanged -- the empty
               # end-of-stream chunk included (C16.read.eof-fed: the protocol is told about the EOF)
-              "iter_ensures": [("C16.read.forward", "implies(n_after_gap('reads') == 1, trace_any('calls', 'c', c[0] == 'ProtocolPort.handle' and isinstance(c[2], RawData) and c[2].data == after_gap('reads')[0]))", "C16,C01")]}},
+              "iter_ensures": [("C16.read.forward", "implies(n_after_gap('reads') == 1, trace_any('calls', 'c', c[0] == 'ProtocolPort.handle' and isinstance(c[2], RawData) and c[2].data == after_gap('reads')[0]))", "C16,C01")],
+              # C16.read.eof-fed: the loop is only left by `break` (a failed read, or after the empty
+              # chunk was handed over); should it ever end by its test, the end of the stream must
+              # have been reported to the protocol (vacuous for `while True`; finding F16a, fixed)
+              "exit_ensures": [("C16.read.eof-fed", "value_of(self, 'protocol').g_eof_fed", "C16,C04")]}},
    ensures=[
        # C07.finally: whatever ended the loop, the protocol is told last that the connection is gone
        ("C07.read.closed-last", "n_after_gap('calls') >= 1 and after_gap('calls')[-1][0] == 'ProtocolPort.handle' and isinstance(after_gap('calls')[-1][2], Closed)", "C07,C16"),
@@ -142,7 +152,7 @@ fn(T + ".protocol_send", params={"event": _ev.IO_EVENTS}, model_opts=VIEWS,
 
 fn(T + "._close", params={}, model_opts=VIEWS,
    ensures=[
-       ("C07.close.transport", "'aclose' in net_ops()", "C07,C16"),
+       ("C07.close.transport", "'aclose' in net_ops()", "C07,C16,C06"),
        # (the asyncio class stops the keep-alive timer here; the trio class does not: finding F7d
        # is stated where it matters, at the join in run())
    ],
@@ -153,7 +163,11 @@ fn(T + "._read_data", params={}, model_opts=VIEWS,
              ("read.pre.timeout", "self.config.read_timeout is None or self.config.read_timeout >= 0")],
    loops={0: {"locals": {"data": "bytes"},
               "invariant": [("C16.read.inv", "has(self, 'protocol') and value_of(self, 'protocol').g_initiated and not value_of(self, 'protocol').g_eof_fed", "C16")],
-              "iter_ensures": [("C16.read.forward", "implies(n_after_gap('reads') == 1, trace_any('calls', 'c', c[0] == 'ProtocolPort.handle' and isinstance(c[2], RawData) and c[2].data == after_gap('reads')[0]))", "C16,C01")]}},
+              "iter_ensures": [("C16.read.forward", "implies(n_after_gap('reads') == 1, trace_any('calls', 'c', c[0] == 'ProtocolPort.handle' and isinstance(c[2], RawData) and c[2].data == after_gap('reads')[0]))", "C16,C01")],
+              # C16.read.eof-fed: the loop is only left by `break` (a failed read, or after the empty
+              # chunk was handed over); should it ever end by its test, the end of the stream must
+              # have been reported to the protocol (vacuous for `while True`; finding F16a, fixed)
+              "exit_ensures": [("C16.read.eof-fed", "value_of(self, 'protocol').g_eof_fed", "C16,C04")]}},
    ensures=[
        ("C07.read.closed-last", "n_after_gap('calls') >= 1 and after_gap('calls')[-1][0] == 'ProtocolPort.handle' and isinstance(after_gap('calls')[-1][2], Closed)", "C07,C16"),
    ],
